@@ -1941,3 +1941,209 @@ Proof.
   induction ready as [|t ready IH]; intros p H; cbn [fold_left]; auto. destruct (promote_CS p a t H) as [H1 H2]. destruct (IH _ H1) as [H3 H4].
   split; auto. congruence.
 Qed.
+
+Lemma remove_CS : forall o p h, caps_sound p -> caps_sound (remove_tx o p h).
+Proof.
+  intros o p h H. unfold remove_tx. destruct (assoc h (all p)) as [t|]; auto.
+  set (p1 := all_drop p h). assert (H1 : caps_sound p1) by exact H. clearbody p1. clear H p.
+  assert (HQ : caps_sound (match assoc (tfrom t) (queue p1) with
+      | None => p1
+      | Some f => let '(_, _, f') := tl_remove o f t in
+                  if tl_empty f' then set_queue p1 (assoc_del (tfrom t) (queue p1)) else set_queue p1 (assoc_set (tfrom t) f' (queue p1))
+      end)).
+  { destruct (assoc (tfrom t) (queue p1)) as [f|] eqn:Q; auto. destruct (tl_remove o f t) as [[b invs] f'] eqn:R.
+    pose proof (tl_remove_caps _ _ _ _ _ _ R (proj2 H1 _ _ Q)) as C. destruct (tl_empty f'); [eapply CS_qdel|eapply CS_qset]; eauto; reflexivity. }
+  destruct (assoc (tfrom t) (pending p1)) as [pl|] eqn:P; auto.
+  destruct (tl_remove o pl t) as [[b invs] pl'] eqn:R. destruct b; auto.
+  pose proof (tl_remove_caps _ _ _ _ _ _ R (proj1 H1 _ _ P)) as C.
+  match goal with |- caps_sound (if _ then pn_set ?XX _ _ else _) => assert (H2 : caps_sound XX) end.
+  { apply enqueue_fold_CS. destruct (tl_empty pl'); [eapply CS_pdel|eapply CS_pset]; eauto; reflexivity. }
+  match goal with |- caps_sound (if ?c then _ else _) => destruct c end; exact H2.
+Qed.
+Lemma remove_fold_CS : forall o (l : list tx) p, caps_sound p -> caps_sound (fold_left (fun q t => remove_tx o q (thash t)) l p).
+Proof. induction l; intros; cbn [fold_left]; auto. apply IHl. apply remove_CS; auto. Qed.
+
+Lemma pe_account_CS : forall o p a p', caps_sound p -> pe_account o p a = Ok p' -> caps_sound p'.
+Proof.
+  intros o p a p' H0 H. unfold pe_account in H. destruct (assoc a (queue p)) as [l|] eqn:Q; [|inversion H; subst; auto].
+  pose proof (proj2 H0 _ _ Q) as C0.
+  destruct (tl_forward l (cur_nonce p a)) as [old l1] eqn:F. pose proof (tl_forward_caps _ _ _ _ F C0) as C1.
+  set (p1 := drop_all (set_queue p (assoc_set a l1 (queue p))) old) in *.
+  destruct (drop_all_pq old (set_queue p (assoc_set a l1 (queue p)))) as [Pp1 Pq1]. fold p1 in Pp1, Pq1. cbn [pending queue set_queue] in Pp1, Pq1.
+  assert (H1 : caps_sound p1) by (eapply CS_qset with (p := p); eauto). clearbody p1.
+  destruct (tl_filter o l1 (cur_balance p1 a) (maxgas p1)) as [[drops invs] l2] eqn:Fi. destruct (tl_filter_caps _ _ _ _ _ _ _ Fi C1) as [C2 _].
+  set (p2 := drop_all (set_queue p1 (assoc_set a l2 (queue p1))) drops) in *.
+  destruct (drop_all_pq drops (set_queue p1 (assoc_set a l2 (queue p1)))) as [Pp2 Pq2]. fold p2 in Pp2, Pq2. cbn [pending queue set_queue] in Pp2, Pq2.
+  assert (H2 : caps_sound p2) by (eapply CS_qset with (p := p1); eauto). clearbody p2.
+  destruct (tl_ready l2 (pn_get p2 a)) as [ready l3] eqn:R. destruct (tl_ready_caps _ _ _ _ R C2) as [C3 _].
+  set (pb := set_queue p2 (assoc_set a l3 (queue p2))) in *.
+  assert (Hb : caps_sound pb) by (eapply CS_qset with (p := p2); eauto; reflexivity).
+  destruct (promote_fold_CS a ready pb Hb) as [H3 Q3].
+  set (p3 := fold_left (fun q t => promote_tx q a t) ready pb) in *. clearbody p3.
+  apply bind_ok in H. destruct H as ([p4 l4] & E1 & E2).
+  assert (H4 : caps_sound p4).
+  { destruct (memZ a (locals p3)); [inversion E1; subst; auto|].
+    destruct (tl_cap l3 (c_aqueue (conf p3))) as [[caps l4']|] eqn:C; [|discriminate]. inversion E1; subst; clear E1.
+    destruct (drop_all_pq caps (set_queue p3 (assoc_set a l4 (queue p3)))) as [Pp4 Pq4]. cbn [pending queue set_queue] in Pp4, Pq4.
+    eapply CS_qset with (p := p3); eauto. eapply tl_cap_caps; eauto. }
+  inversion E2; subst. destruct (tl_empty l4); auto. eapply CS_qdel; eauto; reflexivity.
+Qed.
+Lemma shrink_one_CS : forall p a p', caps_sound p -> shrink_one p a = Ok p' -> caps_sound p'.
+Proof.
+  intros p a p' H0 H. unfold shrink_one in H. destruct (assoc a (pending p)) as [l|] eqn:P; [|discriminate].
+  destruct (tl_cap l (tl_len l - 1)) as [[drops l']|] eqn:C; [|discriminate]. inversion H; subst; clear H.
+  set (pb := set_pending p (assoc_set a l' (pending p))).
+  assert (Ub : caps_sound pb) by (eapply CS_pset with (p := p); eauto; try reflexivity; eapply tl_cap_caps; eauto; apply (proj1 H0 _ _ P)).
+  clearbody pb. clear C. revert pb Ub. induction drops as [|t drops IH]; intros pb Ub; cbn [fold_left]; auto.
+  apply IH. cbv zeta. match goal with |- caps_sound (if ?c then _ else _) => destruct c end; exact Ub.
+Qed.
+Lemma demote_account_CS : forall o p a p', caps_sound p -> demote_account o p a = Ok p' -> caps_sound p'.
+Proof.
+  intros o p a p' H0 H. unfold demote_account in H. destruct (assoc a (pending p)) as [l|] eqn:P; [|inversion H; subst; auto].
+  pose proof (proj1 H0 _ _ P) as C0.
+  destruct (tl_forward l (cur_nonce p a)) as [old l1] eqn:F. pose proof (tl_forward_caps _ _ _ _ F C0) as C1.
+  set (p1 := drop_all (set_pending p (assoc_set a l1 (pending p))) old) in *.
+  destruct (drop_all_pq old (set_pending p (assoc_set a l1 (pending p)))) as [Pp1 Pq1]. fold p1 in Pp1, Pq1. cbn [pending queue set_pending] in Pp1, Pq1.
+  assert (H1 : caps_sound p1) by (eapply CS_pset with (p := p); eauto). clearbody p1.
+  destruct (tl_filter o l1 (cur_balance p1 a) (maxgas p1)) as [[drops invs] l2] eqn:Fi. destruct (tl_filter_caps _ _ _ _ _ _ _ Fi C1) as [C2 _].
+  set (p2 := drop_all (set_pending p1 (assoc_set a l2 (pending p1))) drops) in *.
+  destruct (drop_all_pq drops (set_pending p1 (assoc_set a l2 (pending p1)))) as [Pp2 Pq2]. fold p2 in Pp2, Pq2. cbn [pending queue set_pending] in Pp2, Pq2.
+  assert (H2 : caps_sound p2) by (eapply CS_pset with (p := p1); eauto). clearbody p2.
+  destruct (enqueue_fold_CS invs p2 H2) as [H3 P3].
+  set (p3 := fold_left (fun q x => snd (enqueue_tx q x)) invs p2) in *. clearbody p3.
+  apply bind_ok in H. destruct H as ([p4 l4] & E1 & E2).
+  assert (H4 : caps_sound p4).
+  { destruct ((0 <? tl_len l2) && match tl_get l2 (cur_nonce p a) with None => true | Some _ => false end); [|inversion E1; subst; auto].
+    destruct (tl_cap l2 0) as [[caps l3]|] eqn:C; [|discriminate]. inversion E1; subst; clear E1.
+    apply enqueue_fold_CS. eapply CS_pset with (p := p3); eauto; try reflexivity. eapply tl_cap_caps; eauto. }
+  inversion E2; subst. destruct (tl_empty l4); auto. eapply CS_pdel with (p := p4); eauto; reflexivity.
+Qed.
+Lemma add_insert_CS : forall p t local r p', caps_sound p -> add_insert p t local = (r, p') -> caps_sound p'.
+Proof.
+  intros p t local r p' H0 H. unfold add_insert in H.
+  assert (Henq : forall r p', match enqueue_tx p t with (inr e, p2) => (inr e, p2) | (inl rep, p2) => (inl rep, mark_local p2 (tfrom t) local) end = (r, p') -> caps_sound p').
+  { intros r0 p0 E. destruct (enqueue_CS p t H0) as [U _]. destruct (enqueue_tx p t) as [[rep|e] p2]; cbn [snd] in U; inversion E; subst; auto.
+    unfold mark_local. destruct local; exact U. }
+  destruct (assoc (tfrom t) (pending p)) as [l|] eqn:P; [|eapply Henq; eauto].
+  destruct (tl_overlaps l t); [|eapply Henq; eauto].
+  destruct (tl_add l t (c_bump (conf p))) as [[ins old] l'] eqn:E. destruct ins; [|inversion H; subst; auto].
+  inversion H; subst; clear H. pose proof (tl_add_caps _ _ _ _ _ _ E (proj1 H0 _ _ P)) as C.
+  eapply CS_pset with (p := p) (l' := l'); auto; destruct old; reflexivity.
+Qed.
+
+(* caps_sound through the loops and the operations (same shape as the _un lemmas) *)
+Lemma shrink_fold_CS : forall l (st r : pool * Z), caps_sound (fst st) ->
+  fold_res (fun (st : pool * Z) a => q <- shrink_one (fst st) a ;; Ok (q, (snd st - 1) mod two64)) l st = Ok r -> caps_sound (fst r).
+Proof.
+  intros l st r Hun H. eapply (fold_res_inv _ _ (fun st => caps_sound (fst st))); eauto.
+  intros a x a' Ha Hf. apply bind_ok in Hf. destruct Hf as (q & H1 & H2). inversion H2; subst. cbn [fst]. eapply shrink_one_CS; eauto.
+Qed.
+Lemma equalize_CS : forall fuel p cnt offs th r, caps_sound p -> equalize fuel p cnt offs th = Ok r -> caps_sound (fst r).
+Proof.
+  induction fuel as [|f IH]; intros p cnt offs th r Hun H; cbn [equalize] in H; [discriminate|].
+  apply bind_ok in H. destruct H as (n & _ & H).
+  destruct ((c_gslots (conf p) <? cnt) && (th <? n)); [|inversion H; subst; auto].
+  apply bind_ok in H. destruct H as (r1 & H1 & H2). eapply IH; [|exact H2]. eapply shrink_fold_CS; [|exact H1]. auto.
+Qed.
+Lemma spam_loop_CS : forall fuel o p cnt sp offs r, caps_sound p -> spam_loop fuel o p cnt sp offs = Ok r -> caps_sound (fst (fst r)).
+Proof.
+  induction fuel as [|f IH]; intros o p cnt sp offs r Hun H; cbn [spam_loop] in H; [discriminate|].
+  destruct (c_gslots (conf p) <? cnt); [|inversion H; subst; auto].
+  destruct (prque_pop o sp) as [[off rest]|]; [|inversion H; subst; auto].
+  destruct (1 <? Z.of_nat (length (offs ++ [off]))).
+  - apply bind_ok in H. destruct H as (th & _ & H). apply bind_ok in H. destruct H as (r1 & H1 & H2).
+    eapply IH; [|exact H2]. eapply equalize_CS; eauto.
+  - eapply IH; eauto.
+Qed.
+Lemma minimum_loop_CS : forall fuel p cnt offs r, caps_sound p -> minimum_loop fuel p cnt offs = Ok r -> caps_sound (fst r).
+Proof.
+  induction fuel as [|f IH]; intros p cnt offs r Hun H; cbn [minimum_loop] in H; [discriminate|].
+  apply bind_ok in H. destruct H as (n & _ & H).
+  destruct ((c_gslots (conf p) <? cnt) && (c_aslots (conf p) <? n)); [|inversion H; subst; auto].
+  apply bind_ok in H. destruct H as (r1 & H1 & H2). eapply IH; [|exact H2]. eapply shrink_fold_CS; [|exact H1]. auto.
+Qed.
+Lemma pe_pending_limit_CS : forall o p p', caps_sound p -> pe_pending_limit o p = Ok p' -> caps_sound p'.
+Proof.
+  intros o p p' Hun H. unfold pe_pending_limit in H. destruct (c_gslots (conf p) <? pending_count p); [|inversion H; subst; auto].
+  apply bind_ok in H. destruct H as ([[p1 cnt1] offs] & H1 & H2). apply spam_loop_CS in H1; auto. cbn [fst] in H1.
+  destruct ((c_gslots (conf p1) <? cnt1) && negb (match offs with [] => true | _ => false end)); [|inversion H2; subst; auto].
+  apply bind_ok in H2. destruct H2 as (r2 & H3 & H4). inversion H4; subst. eapply minimum_loop_CS; eauto.
+Qed.
+Lemma gq_loop_CS : forall o addrs p drop p', caps_sound p -> gq_loop o p addrs drop = Ok p' -> caps_sound p'.
+Proof.
+  induction addrs as [|a rest IH]; intros p drop p' Hun H; cbn [gq_loop] in H; [inversion H; subst; auto|].
+  destruct (0 <? drop); [|inversion H; subst; auto]. destruct (assoc a (queue p)) as [l|]; [|discriminate].
+  destruct (tl_len l <=? drop); eapply IH; try exact H; apply remove_fold_CS; auto.
+Qed.
+Lemma promote_executables_CS : forall o p accs p', caps_sound p -> promote_executables o p accs = Ok p' -> caps_sound p'.
+Proof.
+  intros o p accs p' Hun H. unfold promote_executables in H.
+  apply bind_ok in H. destruct H as (p1 & H1 & H). apply bind_ok in H. destruct H as (p2 & H2 & H3).
+  assert (U1 : caps_sound p1). { eapply (fold_res_inv _ _ caps_sound); [|exact Hun|exact H1]. intros; eapply pe_account_CS; eauto. }
+  assert (U2 : caps_sound p2) by (eapply pe_pending_limit_CS; eauto).
+  unfold pe_queue_limit in H3. destruct (c_gqueue (conf p2) <? queued_count p2); [|inversion H3; subst; auto]. eapply gq_loop_CS; eauto.
+Qed.
+Lemma add_CS : forall o p t local r p', caps_sound p -> add o p t local = (r, p') -> caps_sound p'.
+Proof.
+  intros o p t local r p' Hun H. unfold add in H. destruct (assoc (thash t) (all p)); [inversion H; subst; auto|].
+  destruct (validate_tx p t local); [inversion H; subst; auto|].
+  match type of H with (if ?c then _ else _) = _ => destruct c end; [|eapply add_insert_CS; eauto].
+  destruct (priced_underpriced o (all p) (locals p) (pricedl p) t) as [u pr]. destruct u; [inversion H; subst; exact Hun|].
+  match type of H with (let '(_, _) := ?d in _) = _ => destruct d as [drop pr1] end.
+  eapply add_insert_CS; [|exact H]. apply remove_fold_CS. exact Hun.
+Qed.
+Lemma add_tx_CS : forall o p t local e p', caps_sound p -> add_tx o p t local = Ok (e, p') -> caps_sound p'.
+Proof.
+  intros o p t local e p' Hun H. unfold add_tx in H. destruct (add o p t local) as [[rep|er] p1] eqn:A; pose proof (add_CS _ _ _ _ _ _ Hun A) as U1.
+  - destruct rep; [inversion H; subst; auto|]. apply bind_ok in H. destruct H as (p2 & H1 & H2). inversion H2; subst. eapply promote_executables_CS; eauto.
+  - inversion H; subst; auto.
+Qed.
+Lemma add_txs_locked_CS : forall o p txs local r, caps_sound p -> add_txs_locked o p txs local = Ok r -> caps_sound (snd r).
+Proof.
+  intros o p txs local r Hun H. unfold add_txs_locked in H.
+  assert (G : forall txs st, caps_sound (snd st) -> caps_sound (snd (fold_left (atl_step o local) txs st))).
+  { induction txs0 as [|t txs0 IH]; intros st Hst; cbn [fold_left]; auto. apply IH.
+    destruct st as [[errs dirty] q]. cbn [snd] in *. unfold atl_step. destruct (add o q t local) as [[rep|er] q1] eqn:A; cbn [snd]; eapply add_CS; eauto. }
+  specialize (G txs ([], [], p) Hun).
+  destruct (fold_left (atl_step o local) txs ([], [], p)) as [[errs dirty] p1]. cbn [snd] in G.
+  destruct dirty; [inversion H; subst; auto|]. apply bind_ok in H. destruct H as (p2 & H1 & H2). inversion H2; subst. cbn [snd].
+  eapply promote_executables_CS; eauto.
+Qed.
+Lemma demote_unexecutables_CS : forall o p p', caps_sound p -> demote_unexecutables o p = Ok p' -> caps_sound p'.
+Proof.
+  intros o p p' Hun H. unfold demote_unexecutables in H. eapply (fold_res_inv _ _ caps_sound); [|exact Hun|exact H].
+  intros; eapply demote_account_CS; eauto.
+Qed.
+Lemma reset_CS : forall o p c g ri p', caps_sound p -> reset o p c g ri = Ok p' -> caps_sound p'.
+Proof.
+  intros o p c g ri p' Hun H. unfold reset in H.
+  assert (U0 : caps_sound (set_head p c g)) by exact Hun.
+  apply bind_ok in H. destruct H as (p1 & H1 & H). apply bind_ok in H. destruct H as (p2 & H2 & H). apply bind_ok in H. destruct H as (p3 & H3 & H4).
+  assert (U1 : caps_sound p1).
+  { destruct ri; [inversion H1; subst; auto|]. apply bind_ok in H1. destruct H1 as (r & A & B). inversion B; subst. eapply add_txs_locked_CS; eauto. }
+  assert (U2 : caps_sound p2) by (eapply demote_unexecutables_CS; eauto).
+  assert (U3 : caps_sound p3).
+  { eapply (fold_res_inv _ _ caps_sound); [|exact U2|exact H3]. intros q a q' Hq Hf. cbv beta in Hf. destruct (assoc a (pending q)) as [tl|]; [|inversion Hf; subst; auto].
+    destruct (rev (items tl)); [discriminate|]. inversion Hf; subst. exact Hq. }
+  eapply promote_executables_CS; eauto.
+Qed.
+Lemma set_gas_price_CS : forall o p g, caps_sound p -> caps_sound (set_gas_price o p g).
+Proof.
+  intros o p g Hun. unfold set_gas_price. match goal with |- context [priced_cap ?a ?b ?c ?d ?e] => destruct (priced_cap a b c d e) as [drop pr] end.
+  apply remove_fold_CS. exact Hun.
+Qed.
+Lemma step_CS : forall o p x p', caps_sound p -> step o p x = Ok p' -> caps_sound p'.
+Proof.
+  intros o p x p' Hun H. destruct x; cbn [step] in H.
+  - apply bind_ok in H. destruct H as ([e q] & H1 & H2). inversion H2; subst. eapply add_tx_CS; eauto.
+  - apply bind_ok in H. destruct H as ([e q] & H1 & H2). inversion H2; subst. eapply add_tx_CS; eauto.
+  - inversion H; subst. apply set_gas_price_CS; auto.
+  - eapply reset_CS; eauto.
+Qed.
+Lemma new_pool_CS : forall c gp cur0 gas0, caps_sound (new_pool c gp cur0 gas0).
+Proof. intros. split; cbn; intros a l H; discriminate. Qed.
+Theorem caps_sound_invariant : forall h p p', caps_sound p -> run p h = Ok p' -> caps_sound p'.
+Proof.
+  induction h as [|[o x] h IH]; intros p p' Hun H; cbn [run] in H; [inversion H; subst; auto|].
+  apply bind_ok in H. destruct H as (p1 & H1 & H2). eapply IH; [|exact H2]. eapply step_CS; eauto.
+Qed.
